@@ -126,3 +126,48 @@ func verifH_C18_api_subevents() {
 	verifAssert(b == 1, "the sub-event handler of another socket stays registered")
 	verifReach("end")
 }
+
+// C18_once_race: two occurrences of an event race (plus optionally an Off of the Once handler) on a store holding one On
+// and one Once handler, under all interleavings at synchronisation points: the Once handler is handed to at most one
+// occurrence - exactly one if it was not removed - and the On handler to both. Lifecycle store and event store.
+//
+//verif:unwind 12
+//verif:preempt 3
+func verifH_C18_once_race() {
+	st := newHandlerStore[*ManagerOpenFunc]()
+	fOn := ManagerOpenFunc(func() {})
+	fOnce := ManagerOpenFunc(func() {})
+	st.on(&fOn)
+	st.once(&fOnce)
+	es := newEventHandlerStore()
+	es.on("x", verifEH(0))
+	es.once("x", verifEH(1))
+	withOff := verifAnyBool()
+	var r1, r2 []*ManagerOpenFunc
+	var e1, e2 []*eventHandler
+	verifThreads(true)
+	verifGo(func() { r1 = st.getAll(); e1 = es.getAll("x") })
+	verifGo(func() { r2 = st.getAll(); e2 = es.getAll("x") })
+	if withOff {
+		verifGo(func() { st.off(&fOnce) })
+	}
+	verifWaitQuiescent()
+	count := func(rs []*ManagerOpenFunc, h *ManagerOpenFunc) int {
+		n := 0
+		for _, r := range rs {
+			if r == h {
+				n++
+			}
+		}
+		return n
+	}
+	once := count(r1, &fOnce) + count(r2, &fOnce)
+	verifAssert(once <= 1, "a Once handler runs for at most one occurrence even when occurrences race")
+	if !withOff {
+		verifAssert(once == 1, "a Once handler that was not removed runs for exactly one occurrence")
+	}
+	verifAssert(count(r1, &fOn) == 1 && count(r2, &fOn) == 1, "an On handler runs for every occurrence")
+	verifAssert(verifCountEH(e1, 1)+verifCountEH(e2, 1) == 1, "a Once event handler runs for exactly one of two racing occurrences")
+	verifAssert(verifCountEH(e1, 0) == 1 && verifCountEH(e2, 0) == 1, "an On event handler runs for every occurrence")
+	verifReach("end")
+}
